@@ -56,14 +56,15 @@ const (
 var opNames = [...]string{"Marshal", "MarshalSize", "DestinationSSRC", "String", "Header", "Unmarshal", "Unmarshal(reused variable)"}
 
 type c18Obj struct {
-	kind    gen.Kind
-	flav    int
-	p       rtcp.Packet
-	backing []byte // the caller-owned array of which buf is a prefix
-	buf     []byte
-	target  rtcp.Packet // reusable decode target (private objects)
-	base    [numOps]uint64
-	valid   [numOps]bool
+	kind     gen.Kind
+	flav     int
+	p        rtcp.Packet
+	backing  []byte // the caller-owned array of which buf is a prefix
+	buf      []byte
+	target   rtcp.Packet // reusable decode target (private objects)
+	preFault string      // set when preparing the object already showed a purity violation
+	base     [numOps]uint64
+	valid    [numOps]bool
 }
 
 func resetPacket(p rtcp.Packet) {
@@ -169,10 +170,35 @@ func degenerate(r *core.Rand, k gen.Kind) rtcp.Packet {
 	return p
 }
 
+// withNilElement puts a nil into one list of interfaces or pointers (a report block, a status
+// chunk, a delta, a compound member). Most operations panic on such a value in the unchanged
+// library and are then not judged; one that does return must still leave the value alone.
+func withNilElement(r *core.Rand, p rtcp.Packet) {
+	switch v := p.(type) {
+	case *rtcp.ExtendedReport:
+		i := r.Intn(len(v.Reports) + 1)
+		v.Reports = append(v.Reports[:i:i], append([]rtcp.ReportBlock{nil}, v.Reports[i:]...)...)
+	case *rtcp.TransportLayerCC:
+		if len(v.RecvDeltas) > 0 && r.Bool() {
+			v.RecvDeltas[r.Intn(len(v.RecvDeltas))] = nil
+		} else if len(v.PacketChunks) > 0 {
+			v.PacketChunks[r.Intn(len(v.PacketChunks))] = nil
+		}
+	case *rtcp.CompoundPacket:
+		if len(*v) > 0 {
+			i := 1 + r.Intn(len(*v))
+			*v = append((*v)[:i:i], append([]rtcp.Packet{nil}, (*v)[i:]...)...)
+		}
+	}
+}
+
 func newObjFlav(r *core.Rand, k gen.Kind, mutateBuf bool, flav int) *c18Obj {
 	p := gen.Packet(r, k, gen.Opts{Small: r.Chance(3, 4), NoBig: true, AllowKF: r.Chance(1, 6)})
 	if flav == flavGenerated && r.Chance(1, 6) {
 		p = degenerate(r, k)
+	}
+	if flav == flavGenerated && r.Chance(1, 10) {
+		withNilElement(r, p)
 	}
 	o := &c18Obj{kind: k, p: p, flav: flav}
 	var enc []byte
@@ -207,7 +233,14 @@ func newObjFlav(r *core.Rand, k gen.Kind, mutateBuf bool, flav int) *c18Obj {
 		o.p = mon.AddSlack(p, 1+r.Intn(8), r.U64).(rtcp.Packet)
 	}
 	if containsXR(o.p) {
-		core.Guard(func() { _, _ = o.p.Marshal() }) // fill the XR block headers once, before baselines are taken and the object is shared
+		// fill the XR block headers once, before baselines are taken and the object is shared; this
+		// first Marshal, too, may change nothing but those header fields
+		before := xrModuloHeader(o.p)
+		if pan, _, _ := core.Guard(func() { _, _ = o.p.Marshal() }); !pan {
+			if after := xrModuloHeader(o.p); !mon.SemEqual(before, after) || mon.Dump(before) != mon.Dump(after) {
+				o.preFault = "first Marshal of the value changed more than the XR block headers: before " + vdump(before) + " after " + vdump(after)
+			}
+		}
 	}
 	o.target = gen.New(k)
 	for op := opKind(0); op < numOps; op++ {
@@ -233,6 +266,9 @@ func xrModuloHeader(p rtcp.Packet) rtcp.Packet {
 		switch v := p.(type) {
 		case *rtcp.ExtendedReport:
 			for _, b := range v.Reports {
+				if b == nil {
+					continue
+				}
 				f := reflect.ValueOf(b).Elem().FieldByName("XRHeader")
 				if f.IsValid() && f.CanSet() {
 					if _, unknown := b.(*rtcp.UnknownReportBlock); unknown {
@@ -258,6 +294,10 @@ func containsXR(p rtcp.Packet) bool {
 
 // c18Purity runs one operation with snapshots around it.
 func c18Purity(cs *core.Case, o *c18Obj, op opKind, where string) {
+	if o.preFault != "" {
+		cs.Fail("packet-modified/Marshal", core.W{"type": o.kind.String(), "where": "first Marshal while preparing the object", "detail": o.preFault})
+		o.preFault = ""
+	}
 	if !opApplies(op, o) || !o.valid[op] {
 		return
 	}
